@@ -821,3 +821,9 @@ V('c13-shadow-from-partial', 'C13', 'C13.R5',
 
 V('c19-stats-not-reentrant', 'C19', 'C19.R9',
   ('pywbem/_statistics.py', "        if any(op_stat is not None and op_stat.name == name\n               for op_stat in self._cm_stack):\n", "        if False:\n"), 'timer-reentered')
+
+# ---- round d ---------------------------------------------------------------------
+V('c20-hex-no-plus', 'C20', 'C20.R8',
+  (UTL, "    r'^[+\\-]?0X(?:[0-9A-F]+)$',", "    r'^-?0X(?:[0-9A-F]+)$',"), 'sign')
+V('c20-binary-digits', 'C20', 'C20.R8',
+  (UTL, "    r'^([+\\-]?(?:[0-1]+))B$',", "    r'^([+\\-]?(?:[1]+))B$',"), 'digit-alphabet')
